@@ -156,7 +156,7 @@ class HTTP(BaseComponent):
             self._closing.add(sock)
         self.fire(write(sock, b'%s%s' % (bytes(res), bytes(headers))))
 
-        if req.method == 'HEAD':
+        if req.method == 'HEAD' or res.status < 200 or res.status in (204, 304):
             # no body, but the same end-of-response duties as below
             if res.close:
                 self.fire(close(sock))
